@@ -7,7 +7,7 @@
 (* Values are abstract codes (0 = not set); the harness maps them:         *)
 (*   interval 1 -> 0.5, 2 -> 2.0, bad: -1 -> 0.0, -2 -> -1.0               *)
 (*   offset   0 -> none, 1 -> 1.5, 2 -> -2.5                               *)
-(*   ticks    1 -> {1, 2, 3.5}, 2 -> {-1, 0.25}, bad: -1 -> {3, 1, 2}, -2 -> {} *)
+(*   ticks    1 -> {1, 2, 4}, 2 -> {0, 3}, bad: -1 -> {3, 1, 2}, -2 -> {}    *)
 (*   unit     0 -> none, 1 -> "ms", 2 -> "mV", bad: -1 -> "foo"            *)
 (*   label    0 -> none, 1 -> "time", 2 -> "dist", bad: -1 -> ""           *)
 (*   labels   0 -> {}, 1 -> {"a","b"}, 2 -> {"x"}                          *)
